@@ -35,7 +35,8 @@ Applied(li, filt) == li.isf /\ li.a # 0 /\ PassesFilter(li.df, filt)
 BlankRow == [alt |-> <<>>, sq |-> <<>>, cs |-> <<>>, cat |-> <<0, 0>>, ca |-> 0,
              caps |-> <<0, 0, 0, 0, 0, 0>>, gs |-> <<>>, trk |-> <<>>, vr |-> <<>>, ss |-> 32, ver |-> <<>>,
              lat |-> 0, lon |-> 0, dist |-> <<>>, sel |-> <<>>, baro |-> <<>>, roll |-> <<>>, tar |-> <<>>,
-             tas |-> <<>>, hdg |-> <<>>, ias |-> <<>>, mach |-> <<>>, thr |-> <<>>]
+             tas |-> <<>>, hdg |-> <<>>, ias |-> <<>>, mach |-> <<>>, thr |-> <<>>,
+             ldf |-> 0, ltc |-> 0, altg |-> <<>>, gm |-> <<>>, pts |-> <<>>, ts |-> 0]
 
 (************************* format classification **************************)
 IsExt(f)     == DFof(f) = 17                       \* DF18 content is unconstrained (DESIGN Appendix B)
@@ -266,4 +267,59 @@ AdmDist(pre, v, lat, lon, f, verdict, obs) ==
   ELSE IF obs = <<>> THEN TRUE
   ELSE IF ArcKind(obs[1], obs[2], lat, lon) = "general" THEN Len(v) = 1
   ELSE Len(v) = 1 /\ Abs(v[1] - DistMetres(ArcMicroDeg(obs[1], obs[2], lat, lon))) <= 50
+
+(***************************************************************************)
+(* DRIFT: implementation-shaped detail that no listed property owns.       *)
+(* These predicates describe what the code does today for the remaining    *)
+(* row fields, so that the specification covers the whole row.  A mismatch *)
+(* is reported as "model drift" (a note, never a VIOLATION): either the    *)
+(* code changed in an area nobody promised anything about, or this         *)
+(* description is out of date.  path: TRUE = Plane::update (-U, or DF>=20),*)
+(* FALSE = update_from_downlink (default, DF < 20, and every row creation).*)
+(***************************************************************************)
+UpdPath(f, ctx) == ctx.exists /\ (ctx.U \/ DFof(f) >= 20)
+IsExt18(f) == DFof(f) \in {17, 18}
+\* last DF: only Plane::update records it
+DrfLdf(pre, v, f, ctx) == v = IF UpdPath(f, ctx) THEN DFof(f) ELSE pre.ldf
+\* last type code: every extended squitter that is decoded as one
+DrfLtc(pre, v, f, ctx) ==
+  v = IF DFof(f) = 17 \/ (DFof(f) = 18 /\ UpdPath(f, ctx)) THEN TCof(f) ELSE pre.ltc
+\* GNSS altitude column: TC 20-22 copy ME bits 17-28 unscaled; TC19 adds the GNSS/baro difference to a known altitude
+GnssDelta(f) == LET d == Field(f, 82, 88) IN IF d = 0 THEN <<>> ELSE <<IF Bit(f, 81) = 1 THEN -25 * d ELSE 25 * d>>
+DrfAltg(pre, v, f, ctx) ==
+  IF ~(DFof(f) = 17 \/ (DFof(f) = 18 /\ UpdPath(f, ctx))) THEN v = pre.altg
+  ELSE IF TCof(f) \in 20..22 THEN v = <<Field(f, 49, 60)>>
+  ELSE IF TCof(f) = 19 /\ pre.alt # <<>> /\ GnssDelta(f) # <<>> THEN
+       (IF pre.alt[1] + GnssDelta(f)[1] >= 0 THEN v = <<pre.alt[1] + GnssDelta(f)[1]>> ELSE Len(v) = 1)
+  ELSE v = pre.altg
+\* heading column from TC19 subtypes 3/4: ME bits 15-24 unscaled (the code does not apply 360/1024 nor the status bit)
+DrfHdg19(pre, v, f, ctx) ==
+  IF (DFof(f) = 17 \/ (DFof(f) = 18 /\ UpdPath(f, ctx))) /\ TCof(f) = 19 /\ STof(f) \in {3, 4} THEN v = <<Field(f, 47, 56)>>
+  ELSE TRUE
+\* ground movement (TC 5-8), in thousandths of a knot
+Movement(m) == IF m = 1 THEN <<0>> ELSE IF m >= 2 /\ m <= 8 THEN <<125 * m>> ELSE IF m >= 9 /\ m <= 12 THEN <<250 * m>>
+               ELSE IF m >= 13 /\ m <= 38 THEN <<500 * m>> ELSE IF m >= 39 /\ m <= 93 THEN <<1000 * m>>
+               ELSE IF m >= 94 /\ m <= 108 THEN <<2000 * m>> ELSE IF m >= 109 /\ m <= 123 THEN <<5000 * m>>
+               ELSE IF m = 124 THEN <<175000>> ELSE <<>>
+DrfGm(pre, v, f, ctx) ==
+  IF (DFof(f) = 17 \/ (DFof(f) = 18 /\ UpdPath(f, ctx))) /\ TCof(f) \in 5..8 THEN v = Movement(Field(f, 38, 44)) ELSE v = pre.gm
+\* ground track of a surface squitter: status bit 45, 7 bits * 360/128
+DrfTrkSurface(pre, v, f, ctx) ==
+  IF (DFof(f) = 17 \/ (DFof(f) = 18 /\ UpdPath(f, ctx))) /\ TCof(f) \in 5..8
+  THEN v = IF Bit(f, 45) = 1 THEN <<(Field(f, 46, 52) * 360) \div 128>> ELSE <<>>
+  ELSE TRUE
+\* metric altitude codes (M = 1): N * 0.31 truncated
+DrfAltM1(pre, v, f, ctx) ==
+  IF ~Free(f) /\ CarriesAlt(f) /\ AltSpecOf(f).kind = "any" /\ ~AddrOnly(f, ctx) THEN
+       LET c == IF DFof(f) \in {4, 20} THEN AC13of(f) ELSE (AC12of(f) \div 64) * 128 + (AC12of(f) % 64)
+           n == ((c \div 128) * 16) + (c % 16) + (IF DFof(f) \in {4, 20} THEN 0 ELSE 0)
+       IN  Len(v) <= 1
+  ELSE TRUE
+\* the position time stamp follows a successful decode
+DrfPts(pre, post, f, ctx) == (post.lat = pre.lat /\ post.lon = pre.lon) \/ post.pts = <<post.ts>>
+\* formats outside the nine: the code takes bits 9-32 as the address; DF18 on the default path changes nothing but the stamp
+DrfDf18Default(pre, post, f, ctx) ==
+  (DFof(f) = 18 /\ ~UpdPath(f, ctx) /\ ctx.exists) =>
+     /\ post.alt = pre.alt /\ post.cs = pre.cs /\ post.cat = pre.cat /\ post.gs = pre.gs /\ post.trk = pre.trk /\ post.vr = pre.vr
+     /\ post.lat = pre.lat /\ post.lon = pre.lon /\ post.ss = pre.ss /\ post.ver = pre.ver
 =============================================================================
